@@ -9,6 +9,9 @@ use tokio::io::{self, AsyncRead};
 
 use self::{bins::read_bins, intervals::read_intervals, metadata::read_metadata};
 
+// The count comes from the input: use it as a capacity hint only up to this bound.
+const MAX_PREALLOCATED_LEN: usize = 1 << 16;
+
 pub(super) async fn read_reference_sequences<R>(
     reader: &mut R,
     reference_sequence_count: usize,
@@ -16,7 +19,8 @@ pub(super) async fn read_reference_sequences<R>(
 where
     R: AsyncRead + Unpin,
 {
-    let mut reference_sequences = Vec::with_capacity(reference_sequence_count);
+    let mut reference_sequences =
+        Vec::with_capacity(reference_sequence_count.min(MAX_PREALLOCATED_LEN));
 
     for _ in 0..reference_sequence_count {
         let reference_sequence = read_reference_sequence(reader).await?;
